@@ -16,6 +16,11 @@ def run(ctx):
     for w in ([6] if quick else [4, 6, 8]):   # width 8: ~10 min; width 10 does not finish in 25 min here
         ctx.model_check("Draw", "MC_Draw.cfg", "every bound and every raw word at width %d: uniform fibres, >half accepted, reject is fresh" % w,
                         constants={"W": w}, workers=vlib.NCPU)
+    # the threshold arithmetic for EVERY modulus and bound (no width at all), by the TLA+ proof system
+    nob = ctx.tlapm("DrawProofs")
+    ctx.cover["tlapm"] = ("DrawProofs.tla: %d obligations proved - for every M > 1 and 1 <= n < M the threshold is the largest multiple of n "
+                          "below M, at most n words are rejected, and accepted words <-> (quotient, result) pairs is a bijection "
+                          "(every result has exactly T/n raw preimages); the masking branch likewise" % nob)
     ok, txt = ctx.apalache("DrawLemma")
     if not ok:
         raise Undecided("Apalache refutes the threshold lemma of the specification (model-level)")
